@@ -473,7 +473,8 @@ def run(tier, replay=None):
                     ds = synth.make_dataset(r, tmp, n_samples=2, n_loci=2, ploidies=(2, 4), max_snvs=2, depth=(60, 150))
                 else:
                     # mixed ploidy, shallow reads (the prior matters) and a DIFFERENT inbreeding coefficient per sample
-                    ds = synth.make_dataset(r, tmp, n_samples=3, n_loci=3, ploidies=(2, 4, 6), max_snvs=3, depth=(2, 5))
+                    # (two samples share a ploidy: anything computed once per ploidy level would be shared between them)
+                    ds = synth.make_dataset(r, tmp, n_samples=4, n_loci=3, ploidies=(4, 2, 4, 6), max_snvs=3, depth=(2, 5))
                 chk.count("cli:dataset:" + ("deep(60-150)" if deep else "shallow(2-5)") + ":ploidies=" + "/".join(str(ds.ploidy[s_]) for s_ in ds.samples))
                 inb = tmp + "/inbreeding.tsv"
                 with open(inb, "w") as fh:
